@@ -103,6 +103,17 @@ CHECKS['C08'] = dict(
          'histories longer than 3 operations and pools larger than 4 live vectors are outside the bound; quick tier samples the multi-step '
          'families with VERIF_SEED.',
     design='§3 C08')
+CHECKS['C16'] = dict(
+    text='For every operation of an allocating catalogue (constructors, factories, copy/move/proxy assignment incl. resize, temporary '
+         'and aliasing paths, implicit proxy conversions in sub-expressions, Rotate, Real/Imag, GetComponents, matrix constructor and '
+         'matrix rotation) from 25 pre-states, a fault-free symbolic run discovers the number N of operator new/new[] calls and the '
+         'operation is re-executed N times with exactly the j-th call throwing std::bad_alloc (complete per operation). Decided on each '
+         'path: the exception propagates (no terminate), every other vector is bit-identical (objects and user buffers), then (a) all '
+         'vectors are destroyed and the cache drained and (b) the target is first re-assigned: no double/invalid free, no use of '
+         'released or null storage, no leaked new[] block. Failing cases are replayed natively with a counting/failing global operator new.',
+    note='Trusted: clang-14 -O1 IR; irsym heap ledger; GSL allocations (malloc) never fail (the property speaks of std::bad_alloc); one '
+         'failure per operation; dimensions (2,3) in the quick tier, four pairs in the thorough tier.',
+    design='§3 C16', category='model_checking')
 NA_REASON = 'check not built yet (framework under construction; see DESIGN.md)'
 NA = {}
 
